@@ -51,6 +51,7 @@ static int vs_thread_was_joined(int t) {
 static int vs_current_tid(void) { return 0; }
 static int vs_seq_now(void) { return 0; }
 static uint64_t vs_spin_clock_step_ns; /* no virtual clock in the free-running twin */
+static int vs_refuse_creates;          /* no injection in the free-running twin: scenarios that need it skip themselves */
 static int vs_last_lock_seq(int tid) {
     (void)tid;
     return 0;
